@@ -165,13 +165,12 @@ def status_snapshot(w, nick):
     snap = {}
     stamped = ('now_monotonic',)
     for method in ('get_supvisors_state', 'get_all_instances_state_modes', 'get_all_applications_info',
-                   'get_all_process_info'):
+                   'get_all_process_info', 'get_conflicts'):
         try:
             snap[method] = _mask(peek(w, nick, 'supvisors.' + method), stamped)
         except Fault as exc:
             snap[method] = f'fault {exc.code}'
-    for method in ('get_master_identifier', 'get_all_instances_info', 'get_conflicts', 'get_strategies',
-                   'get_statistics_status'):
+    for method in ('get_master_identifier', 'get_all_instances_info', 'get_strategies', 'get_statistics_status'):
         try:
             snap[method] = peek(w, nick, 'supvisors.' + method)
         except Fault as exc:
